@@ -171,6 +171,7 @@ func TestVerif_C09_Parallel(t *testing.T) {
 		M := rapid.IntRange(1, 12).Draw(rt, "M")
 		pre := rapid.IntRange(0, 3).Draw(rt, "pre")
 		seed := rapid.Uint64().Draw(rt, "delaySeed")
+		readBack := rapid.Bool().Draw(rt, "readBack")
 		w := c09NewWorld(kinds, pre)
 		dec := c09WatchCounters(w.ds)
 		var opIdx atomic.Uint64
@@ -204,6 +205,12 @@ func TestVerif_C09_Parallel(t *testing.T) {
 					}
 					env, err := w.S.s.SealEnvelope(vctx, w.groups[gi], vWrap(p))
 					inflight.Add(-1)
+					if err == nil && readBack {
+						// the sender's own message store opens every entry of the log, its own included
+						if o, e2 := vOpen(w.S, w.groups[gi], env, vCID(env)); e2 != nil || !bytes.Equal(o.Payload, p) {
+							err = fmt.Errorf("own envelope does not open on the sender: %v", e2)
+						}
+					}
 					mu.Lock()
 					if err != nil {
 						errs = append(errs, err.Error())
@@ -217,7 +224,7 @@ func TestVerif_C09_Parallel(t *testing.T) {
 		close(start)
 		wg.Wait()
 		w.ds.Hook = nil
-		desc := map[string]any{"kinds": kinds, "senders": N, "messages_each": M, "pre": pre, "delay_seed": seed}
+		desc := map[string]any{"kinds": kinds, "senders": N, "messages_each": M, "pre": pre, "delay_seed": seed, "read_back": readBack}
 		if len(errs) > 0 {
 			acct.Violation("parallel/seal-error", "TestVerif_C09_Parallel", map[string]any{"scenario": desc, "errors": errs})
 			rt.Fatalf("SealEnvelope failed under concurrency: %v", errs)
@@ -227,8 +234,8 @@ func TestVerif_C09_Parallel(t *testing.T) {
 			rt.Fatalf("%s: %s (%v)", id, msg, desc)
 		}
 		overlap := maxInflight.Load() >= 2
-		acct.Case(overlap, fmt.Sprintf("%v|%d|%d|%d|%d", kinds, N, M, pre, seed), func() any { return map[string]any{"kind": "parallel", "scenario": desc, "max_in_flight": maxInflight.Load()} },
-			"parallel", lbl(overlap, "parallel/overlapping-sends"), lbl(len(kinds) > 1, "parallel/several-groups"))
+		acct.Case(overlap, fmt.Sprintf("%v|%d|%d|%d|%d|%v", kinds, N, M, pre, seed, readBack), func() any { return map[string]any{"kind": "parallel", "scenario": desc, "max_in_flight": maxInflight.Load()} },
+			"parallel", lbl(overlap, "parallel/overlapping-sends"), lbl(len(kinds) > 1, "parallel/several-groups"), lbl(readBack, "parallel/read-back"))
 	})
 }
 
@@ -238,6 +245,8 @@ type c09Scenario struct {
 	Kind    int   `json:"kind"`
 	Senders []int `json:"senders"` // messages sealed by each task
 	Pre     int   `json:"pre"`
+	// the sender opens each of its own envelopes right after sealing it, as its message store does for every log entry
+	ReadBack bool `json:"read_back,omitempty"`
 }
 
 func c09Controlled(t *testing.T, sc c09Scenario, choices []int) vsched.Outcome {
@@ -265,6 +274,12 @@ func c09Controlled(t *testing.T, sc c09Scenario, choices []int) vsched.Outcome {
 						return
 					}
 					sent = append(sent, c09Sent{0, env, p})
+					if sc.ReadBack {
+						if o, err := vOpen(w.S, w.groups[0], env, vCID(env)); err != nil || !bytes.Equal(o.Payload, p) {
+							errs = append(errs, fmt.Sprintf("own envelope does not open on the sender: %v", err))
+							return
+						}
+					}
 				}
 			})
 		}
@@ -292,6 +307,9 @@ func c09Controlled(t *testing.T, sc c09Scenario, choices []int) vsched.Outcome {
 	if out.NonTrivial {
 		out.Labels = append(out.Labels, "controlled/contended-lock")
 	}
+	if sc.ReadBack {
+		out.Labels = append(out.Labels, "controlled/read-back")
+	}
 	return out
 }
 
@@ -301,7 +319,8 @@ func TestVerif_C09_Controlled(t *testing.T) {
 		e.Replay(t, p)
 		return
 	}
-	scs := []c09Scenario{{Kind: vKindMulti, Senders: []int{1, 1}}, {Kind: vKindAccount, Senders: []int{1, 1}, Pre: 1}, {Kind: vKindContact, Senders: []int{2, 1}}}
+	scs := []c09Scenario{{Kind: vKindMulti, Senders: []int{1, 1}}, {Kind: vKindAccount, Senders: []int{1, 1}, Pre: 1}, {Kind: vKindContact, Senders: []int{2, 1}},
+		{Kind: vKindMulti, Senders: []int{2, 1}, ReadBack: true}}
 	maxRuns, maxPre := 4000, 3
 	if vacct.Thorough() {
 		scs = append(scs, c09Scenario{Kind: vKindMulti, Senders: []int{1, 1, 1}}, c09Scenario{Kind: vKindMulti, Senders: []int{2, 2}, Pre: 2}, c09Scenario{Kind: vKindAccount, Senders: []int{2, 1, 1}})
@@ -322,6 +341,7 @@ func TestVerif_C09_ControlledRandom(t *testing.T) {
 		return
 	}
 	e.Random(t, vacct.N(300, 20000), func(rt *rapid.T) c09Scenario {
-		return c09Scenario{Kind: rapid.IntRange(0, 2).Draw(rt, "kind"), Senders: rapid.SliceOfN(rapid.IntRange(1, 2), 2, 3).Draw(rt, "senders"), Pre: rapid.IntRange(0, 2).Draw(rt, "pre")}
+		return c09Scenario{Kind: rapid.IntRange(0, 2).Draw(rt, "kind"), Senders: rapid.SliceOfN(rapid.IntRange(1, 2), 2, 3).Draw(rt, "senders"), Pre: rapid.IntRange(0, 2).Draw(rt, "pre"),
+			ReadBack: rapid.Bool().Draw(rt, "readback")}
 	}, 400)
 }
